@@ -5,6 +5,14 @@ HERE = os.path.dirname(os.path.dirname(os.path.abspath(__file__)))
 
 # id -> (technique, level text, level note, design section)
 CHECKS = {
+ "C08": ("explicit enumeration of all overlap assignments per namespace (cells name x side x kind x content), bfs over merge histories with state deduplication, algebraic cases; relational oracle on module snapshots",
+         "For each of 12 namespaces every assignment of {absent, (kind, content)} to the cells (name, side) over the name sets {X,Y} and {X, X.MERGE, X.MERGE2 | X.MERGE.MERGE} (all kinds of the shared namespaces), the reference-site space of C09, merge empty / clone / into empty from 8 start modules and a breadth-first search over merge histories (depth 3, thorough 4) from a menu of 6 modules with states deduplicated on module content. After every merge: A's elements unchanged (GROUP/FUNCTION may gain members), every element of B represented under an observed renaming that is fresh with respect to A, identical elements shared and only those, no duplicate names per namespace, nothing invented, and the merged file reloads to an equal model.",
+         "USER_RIGHTS, SYSTEM_CONSTANT, MEMORY_LAYOUT and the singletons are all-or-nothing by design; element content is represented by two variants per kind",
+         "DESIGN.md 5/C08"),
+ "C09": ("exhaustive enumeration of reference positions x target kinds x overlap patterns x referrer novelty (thorough: pairs of positions) with a reference-graph oracle under the observed renaming",
+         "60 referrer shapes covering every reference position of the grammar (including those nested in AXIS_DESCR, OVERWRITE, VAR_CRITERION and the singletons MOD_COMMON / VARIANT_CODING) x every kind of the target namespace x target {absent, identical, conflicting, conflicting with X.MERGE taken} x referrer {new, conflicting}, with a same-named conflicting element in another namespace, plus identifier positions that are not references; thorough adds all pairs of positions in one module. The element representing B's referrer must hold, at every position, the name of the element representing its original target; non-reference identifiers must stay unchanged.",
+         "elements of B shared as identical are A's elements (their references are A's); the table of reference positions (vcore/src/refsites.rs) is derived from the frozen grammar by hand",
+         "DESIGN.md 5/C09"),
  "C06": ("lockstep of strict and non-strict load on the exhaustively enumerated valid / single-fault (thorough: double-fault) document space; detection token located by the reference interpreter",
          "For every document of the C04 space (valid x 6 versions, every single deviation), every located single fault rendered one token per line, every token deletion / duplication / swap / truncation of every carrier (thorough: all pairs of deviations): both modes are run and the relations R1 strict Ok => lax Ok, R2 lax clean => strict Ok with equal model, R3 (no IF_DATA) strict Err <=> lax Err or a non-deprecation diagnostic, R4 equal models, R5 the diagnostic names the file (string: empty, load(file): the path) and the line of the token at which the reference interpreter rejects the document.",
          "R5 is evaluated for single deviations with a well-defined detection token and not for documents with A2ML/IF_DATA or blind token mutations; after a recoverable problem followed by a hard error the non-strict log is unobservable (API returns only the error)",
